@@ -31,6 +31,35 @@ let fmt_qres r =
   | QErrInvalidInput -> "Err:InvalidInput"
   | QPanic -> "Panic"
 
+let fmt_frecs (rs, e) =
+  String.concat ";" (List.map (fun r ->
+    String.concat ":" [hex_of_bytes r.r_name;
+                       (match r.r_desc with None -> "-" | Some d -> hex_of_bytes d);
+                       hex_of_bytes r.r_seq]) rs)
+  ^ "|" ^ (match e with None -> "ok" | Some RInvalidData -> "Err:InvalidData" | Some ROutOfFuel -> "Err:OutOfFuel")
+
+let fmt_qerr e =
+  match e with
+  | None -> "ok"
+  | Some QInvalidData -> "Err:InvalidData"
+  | Some QUnexpectedEof -> "Err:UnexpectedEof"
+  | Some QOutOfFuel -> "Err:OutOfFuel"
+
+let fmt_qrecs (rs, e) =
+  String.concat ";" (List.map (fun r ->
+    String.concat ":" [hex_of_bytes r.q_name; hex_of_bytes r.q_desc; hex_of_bytes r.q_seq; hex_of_bytes r.q_qual]) rs)
+  ^ "|" ^ fmt_qerr e
+
+let fmt_qindex (rs, e) =
+  String.concat "," (List.map (fun r ->
+    String.concat ":" [hex_of_bytes r.qf_name; dec_of_n r.qf_len; dec_of_n r.qf_seq_off; dec_of_n r.qf_lb;
+                       dec_of_n r.qf_lw; dec_of_n r.qf_qual_off]) rs)
+  ^ "|" ^ fmt_qerr e
+
+let parse_script s =
+  if s = "_" then [] else
+  List.map (fun t -> if t = "i" then Interrupted else Deliver (nat_of_int (int_of_string t))) (split_on ',' s)
+
 let handle kind a =
   match kind with
   | "idx" | "idxw" -> Some (fmt_index (index_file (bytes_of_hex a.(0))))
@@ -38,15 +67,37 @@ let handle kind a =
   | "q" | "qb" | "qw" ->
       let f = bytes_of_hex a.(0) in
       Some (String.concat "," (List.map fmt_qres (index_and_query_many f (parse_regions a.(2)))))
+  | "qd" ->
+      let f = bytes_of_hex a.(0) in
+      let cap = nat_of_int (int_of_string a.(1)) in
+      let sc = parse_script a.(2) in
+      Some (String.concat "," (List.map (fun (name, (s, e)) ->
+        match index_and_query_delivered cap f sc name s e with
+        | (SOk, r) -> fmt_qres r
+        | (SNoFuel, _) -> "NoFuel") (parse_regions a.(3))))
   | "wr" ->
       let w = nat_of_int (int_of_string a.(0)) in
       let recs = if a.(1) = "_" then [] else split_on ';' a.(1) in
-      let out = List.concat_map (fun r -> match split_on ':' r with
+      let recs = List.map (fun r -> match split_on ':' r with
         | [n; d; s] ->
             let d = if d = "-" then None else Some (bytes_of_hex d) in
-            write_record w (bytes_of_hex n) d (bytes_of_hex s)
+            { r_name = bytes_of_hex n; r_desc = d; r_seq = bytes_of_hex s }
         | _ -> failwith "rec") recs in
-      Some (hex_of_bytes out)
+      let out = write_file w recs in
+      Some (hex_of_bytes out ^ "|" ^ fmt_frecs (read_file out) ^ "|" ^ fmt_index (index_file out))
+  | "rd" | "rdw" -> Some (fmt_frecs (read_file (bytes_of_hex a.(0))))
+  | "fq" ->
+      let recs = if a.(0) = "_" then [] else split_on ';' a.(0) in
+      let recs = List.map (fun r -> match split_on ':' r with
+        | [n; d; s; q] ->
+            { q_name = bytes_of_hex n; q_desc = bytes_of_hex d; q_seq = bytes_of_hex s; q_qual = bytes_of_hex q }
+        | _ -> failwith "qrec") recs in
+      let sep = if Array.length a > 1 then n_of_int (int_of_string a.(1)) else n_of_int 32 in
+      let out = write_qfile sep recs in
+      Some (hex_of_bytes out ^ "|" ^ fmt_qrecs (read_qfile out) ^ "|" ^ fmt_qindex (index_qfile out))
+  | "fqr" ->
+      let f = bytes_of_hex a.(0) in
+      Some (fmt_qrecs (read_qfile f) ^ "|" ^ fmt_qindex (index_qfile f))
   | _ -> None
 
 let () = run_driver handle
